@@ -897,6 +897,34 @@ fn worker_cfg(w: &mut WorkerCtx) {
             }
         }
     }
+    // a HOME value that contains a '$': the defaults are built from the value as it is, nothing in it is
+    // expanded a second time
+    if w.shard == 0 {
+        for (k, _) in SINGLE.iter().skip(1) {
+            std::env::remove_var(k);
+        }
+        std::env::set_var("RVMC_C18_WHO", "bob");
+        for home in ["/srv/homes/$RVMC_C18_WHO", "/srv/h${RVMC_C18_WHO}x", "/srv/build$", "/srv/a$rvmc_c18_unset"] {
+            std::env::set_var("HOME", home);
+            TICK.fetch_add(1, Ordering::Relaxed);
+            let rows: [(&str, Obs, String); 4] = [
+                ("config_dir", obs_path(user::config_dir), format!("{}/.config", home)),
+                ("cache_dir", obs_path(user::cache_dir), format!("{}/.cache", home)),
+                ("data_dir", obs_path(user::data_dir), format!("{}/.local/share", home)),
+                ("state_dir", obs_path(user::state_dir), format!("{}/.local/state", home)),
+            ];
+            for (func, obs, want) in rows {
+                w.count("dirs_dollar_home_cases", 1);
+                let ok = matches!(&obs, Obs::Ok(v) if v.len() == 1 && Path::new(&v[0]) == Path::new(&want));
+                if !ok {
+                    let (o2, h2) = (format!("{:?}", obs), home.to_string());
+                    w.vio(&format!("user::{} [HOME contains '$'] value differs from the default under $HOME", func), move || format!("HOME={:?} (XDG_* unset): user::{}() = {}, expected {:?}", h2, func, o2, want), || J::obj([("part", J::s("config_dir-unresolvable-candidate"))]));
+                }
+            }
+        }
+        std::env::remove_var("RVMC_C18_WHO");
+        std::env::remove_var("HOME");
+    }
     let _ = std::env::set_current_dir("/");
 }
 
